@@ -201,6 +201,9 @@ class _FuncInline(SiteRewriter):
             else:
                 name = self.gensym.fresh('t')
             bind: Stmt = Assign(name, param.type, arg, e.loc)
+            if ctx.is_ctx_expr and not isinstance(arg, (Var, ValueExpr)):
+                # the expression of `with e: ...` is evaluated exactly
+                bind = ContextStmt(UnderscoreId(), ForeignVal(REAL, None), StmtBlock([bind]), e.loc)
             ctx.stmts.append(bind)
 
         # bind the return value to a fresh variable and splice into the current block
